@@ -110,7 +110,8 @@ func validateIncludeFileName(s string) error {
 		return errors.New(jerr.IncludeRootErr)
 	}
 
-	hasForbiddenParts := strings.Contains(s, "/./") ||
+	hasForbiddenParts := s == "." || s == ".." ||
+		strings.Contains(s, "/./") ||
 		strings.Contains(s, "./") ||
 		strings.Contains(s, "/.") ||
 		strings.Contains(s, "/../") ||
